@@ -5,12 +5,15 @@ use crate::Ctx;
 
 pub mod c01;
 pub mod c02;
+pub mod c03;
 pub mod c05;
 pub mod c06;
 pub mod c07;
 pub mod c08;
+pub mod c09;
 pub mod c12;
 pub mod c13;
+pub mod c20;
 
 pub struct Spec {
     pub id: &'static str,
@@ -32,6 +35,15 @@ pub fn spec(id: &str) -> Option<Spec> {
             min_evaluations: 1_000,
             min_nontrivial: 300,
             run: c08::run,
+        },
+        "C09" => Spec {
+            id: "C09",
+            level: "exploration",
+            shards_quick: 8,
+            shards_thorough: 14,
+            min_evaluations: 100,
+            min_nontrivial: 40,
+            run: c09::run,
         },
         "C12" => Spec {
             id: "C12",
@@ -59,6 +71,15 @@ pub fn spec(id: &str) -> Option<Spec> {
             min_evaluations: 500,
             min_nontrivial: 200,
             run: c02::run,
+        },
+        "C03" => Spec {
+            id: "C03",
+            level: "exploration",
+            shards_quick: 8,
+            shards_thorough: 14,
+            min_evaluations: 100,
+            min_nontrivial: 40,
+            run: c03::run,
         },
         "C05" => Spec {
             id: "C05",
@@ -95,6 +116,15 @@ pub fn spec(id: &str) -> Option<Spec> {
             min_evaluations: 1_000,
             min_nontrivial: 300,
             run: c13::run,
+        },
+        "C20" => Spec {
+            id: "C20",
+            level: "exploration",
+            shards_quick: 8,
+            shards_thorough: 14,
+            min_evaluations: 100,
+            min_nontrivial: 40,
+            run: c20::run,
         },
         _ => return None,
     })
